@@ -7,7 +7,7 @@ from ..prims import requires, guard_strs, guarded_any
 EXPLANATION = ('Structural necessary conditions of the QoS 1/2 sender protocol: who may set/clear the DUP flag and with which '
                'constant, who may set/clear the PUBREL phase, packet-id reuse, which operation content may be written after '
                'creation, unconditional retention of unacked publishes at close, no double residence of one operation in the '
-               'resubmit queue, and the session-absent demotion path.')
+               'resubmit queue, and the session-absent demotion path. Added in round 2: the DUP reset of restarted publishes iterates the retained list before it is moved (use-after-drain primitive).')
 ASSUMPTIONS = ['not decided: the legal packet sequence per connection over all disconnect points and ack orders']
 
 P = 'src/protocol.rs'
@@ -124,7 +124,7 @@ def run(ctx):
     ctx.rule('R-C04-4', 'T2', 'at close a high-priority operation survives only when it carries a PUBREL; unacked publishes are re-queued unconditionally (R-C01-6 drain)')
     sr = ctx.fn('ProtocolState::should_retain_high_priority_operation')
     trues = [b for b, e in prims.ret_variants(sr) if show(e) == 'True']
-    ctx.ob(bool(trues) and all(guarded_any(sr, b, [r'^Option::is_some\(.*\.qos2_pubrel\)$']) for b in trues), 'high-priority retention is decided by qos2_pubrel.is_some() only', 'hp-retain', loc=sr.loc())
+    ctx.ob(bool(trues) and all(guarded_any(sr, b, [r'^.*\.qos2_pubrel is Some$']) for b in trues), 'high-priority retention is decided by qos2_pubrel.is_some() only', 'hp-retain', loc=sr.loc())
 
     # ------------------------------------------------------------ R-C04-5 no double residence
     ctx.rule('R-C04-5', 'T9 residence analysis', 'an operation in the PUBREL phase stays in the unacked-publish table (PUBREC handler does not remove it) and is re-queued from there at close, so the '
@@ -138,8 +138,8 @@ def run(ctx):
         f = prims.self_field(m.path)
         if m.kind == 'mutcall' and f in ('resubmit_operation_queue', 'user_operation_queue') and m.method in ('push_front', 'push_back'):
             npush += 1
-            ok = guarded_any(cc, m.bb, [r'^!Option::is_some\(.*\.qos2_pubrel\)$', r'^!\(.*\.qos == QualityOfService::ExactlyOnce\{\}\)$', r'\.packet is (Subscribe|Unsubscribe)$',
-                                           r'^!HashMap::contains_key\(self\.pending_publish_operations', r'^Option::is_none\(.*\.qos2_pubrel\)$', r'\.qos2_pubrel is None$'])
+            ok = guarded_any(cc, m.bb, [r'^.*\.qos2_pubrel is None$', r'^!\(.*\.qos == QualityOfService::ExactlyOnce\{\}\)$', r'\.packet is (Subscribe|Unsubscribe)$',
+                                           r'^!HashMap::contains_key\(self\.pending_publish_operations', r'^.*\.qos2_pubrel is None$', r'\.qos2_pubrel is None$'])
             ctx.ob(ok, 'current operation pushed into %s at close only where it cannot carry a PUBREL' % f, 'current-requeue|%s|%s' % (f, 'when-duplicate' if any(re.search(r'\.duplicate$', g) and not g.startswith('!') for g in guard_strs(cc, m.bb)) else ('subscribe-unsubscribe' if any('Subscribe' in g for g in guard_strs(cc, m.bb)) else 'publish-policy')), loc=m.loc(),
                    detail=None if ok else 'guards: ' + ' ; '.join(guard_strs(cc, m.bb)))
     ctx.floor(npush, 3, 'current-operation re-queue sites at close')
